@@ -619,6 +619,9 @@ func fmtArgs(lit Str, args []Arg, hid []error) (string, []interface{}) {
 	var a, fa []interface{}
 	for _, x := range args {
 		verb := x.Verb
+		if x.NoVerb && x.Kind == ArgErr {
+			continue // (appended after every argument that has a verb)
+		}
 		switch x.Kind {
 		case ArgUnsafeStr:
 			if verb == "" {
@@ -664,7 +667,13 @@ func fmtArgs(lit Str, args []Arg, hid []error) (string, []interface{}) {
 			f += sep + verb
 		}
 	}
-	return front + f, append(fa, a...)
+	all := append(fa, a...)
+	for _, x := range args {
+		if x.NoVerb && x.Kind == ArgErr {
+			all = append(all, hid[x.Hid])
+		}
+	}
+	return front + f, all
 }
 
 // The stack-capturing constructors are called through these non-inlined
